@@ -74,6 +74,7 @@ type repState struct {
 	// discardedIdent: identities whose staged (refused, uncommitted) version was dropped by a close;
 	// the identity excerpt in the cache file still shows it
 	discardedIdent map[string]bool
+	stagedIdents   map[string]bool // identities mutated through the cache and not committed yet (C09 runs)
 	wiped          bool
 	user      entity.Id // adopted user identity (shared_user runs), "" = the replica's own first identity
 }
@@ -236,7 +237,7 @@ func (x *run) setup() error {
 				return err
 			}
 		}
-		rs := &repState{r: r, alive: true, lastOps: map[string][]string{}, removed: map[string]bool{}, clocks: map[string]uint64{}, staged: map[string]bool{}, partition: map[int]bool{}, discarded: map[string]bool{}, discardedIdent: map[string]bool{}}
+		rs := &repState{r: r, alive: true, lastOps: map[string][]string{}, removed: map[string]bool{}, clocks: map[string]uint64{}, staged: map[string]bool{}, partition: map[int]bool{}, discarded: map[string]bool{}, discardedIdent: map[string]bool{}, stagedIdents: map[string]bool{}}
 		x.reps = append(x.reps, rs)
 		n := 1 + p.CfgInt("extra_idents", 0)
 		for k := 0; k < n; k++ {
@@ -359,10 +360,24 @@ func (x *run) newIdentity(rs *repState, name, email string) (entity.Id, error) {
 		if err != nil {
 			return "", err
 		}
+		// the id is handed out before the first commit (a bug may already name it as its author);
+		// whatever is still done to the identity before it is stored, that id stays
+		handedOut := i.Id()
+		if len(x.idents)%2 == 1 {
+			i.SetMetadata("created-by", "simulation")
+			x.probe("identity_metadata_before_first_commit")
+		}
 		if err := i.Commit(r.Sim); err != nil {
 			return "", err
 		}
 		id = i.Id()
+		if x.on("C04", "C09") {
+			if id != handedOut {
+				x.violate("id-changed", "identity created on %s was handed out as %s before its first commit and is %s after it", r.Name, handedOut.Human(), id.Human())
+			} else if _, err := identity.ReadLocal(r.Observer(), handedOut); err != nil {
+				x.violate("id-changed", "identity %s created on %s cannot be read under the id handed out before its first commit: %v", handedOut.Human(), r.Name, err)
+			}
+		}
 	}
 	rs.own = append(rs.own, id)
 	x.idents = append(x.idents, identInfo{Id: id, Home: r.Idx})
@@ -758,12 +773,27 @@ func (x *run) stepCommit(rs *repState, s *sim.Step) error {
 	if rs.r.Cache == nil {
 		return nil
 	}
+	var first error
+	var iids []string
+	for id := range rs.stagedIdents {
+		iids = append(iids, id)
+	}
+	sort.Strings(iids)
+	for _, id := range iids {
+		delete(rs.stagedIdents, id)
+		ic, err := rs.r.Cache.Identities().Resolve(entity.Id(id))
+		if err == nil {
+			err = ic.CommitAsNeeded()
+		}
+		if err != nil && first == nil {
+			first = err
+		}
+	}
 	var ids []string
 	for id := range rs.staged {
 		ids = append(ids, id)
 	}
 	sort.Strings(ids)
-	var first error
 	for _, id := range ids {
 		bc, err := rs.r.Cache.Bugs().Resolve(entity.Id(id))
 		if err != nil {
@@ -1217,6 +1247,14 @@ func (x *run) stepIdentMut(rs *repState, s *sim.Step) error {
 		return fmt.Errorf("no identity")
 	}
 	id := pool[s.B%len(pool)]
+	if s.T == "lowest-id" {
+		// the same identity whichever replica is asked (pools are ordered per replica)
+		for _, c := range pool {
+			if c < id {
+				id = c
+			}
+		}
+	}
 	invalid := s.K == "invalid"
 	mut := func(m *identity.Mutator) {
 		switch s.K {
@@ -1253,6 +1291,12 @@ func (x *run) stepIdentMut(rs *repState, s *sim.Step) error {
 			ic.SetMetadata("k"+fmt.Sprint(s.N%3), s.S)
 		} else if err = ic.Mutate(rs.r.Sim, mut); err != nil {
 			goto done
+		}
+		if x.on("C09") && !invalid && s.N%5 == 0 {
+			// left uncommitted for now: a pull may come in between, a later commit step stores it
+			rs.stagedIdents[string(id)] = true
+			x.probe("identity_mutation_left_uncommitted")
+			return nil
 		}
 		err = ic.CommitAsNeeded()
 	} else {
@@ -1313,6 +1357,7 @@ func (x *run) stepRestart(rs *repState, s *sim.Step) error {
 			x.w.Stats.Fault("kill")
 			// staged operations die with the process
 			rs.staged = map[string]bool{}
+			rs.stagedIdents = map[string]bool{}
 		} else {
 			// a clean exit commits nothing by itself; staged operations are lost as well
 			if err := r.CloseClean(); err != nil {
@@ -1322,6 +1367,10 @@ func (x *run) stepRestart(rs *repState, s *sim.Step) error {
 				rs.discarded[id] = true
 				x.probe("closed_with_uncommitted_operations")
 			}
+			for id := range rs.stagedIdents {
+				rs.discardedIdent[id] = true
+			}
+			rs.stagedIdents = map[string]bool{}
 			rs.staged = map[string]bool{}
 		}
 		rs.alive = false
